@@ -664,7 +664,73 @@ def r03_13(ctx):
     return rr
 
 
-RULES = [r03_1, r03_2, r03_3, r03_4, r03_5, r03_6, r03_7, r03_8, r03_9, r03_10, r03_11, r03_12, r03_13]
+def r03_14(ctx):
+    rr = RuleResult(
+        "R03.14", "GUARD",
+        "check at use, not only at choice: a node class that is built only when a NAMED predicate accepts its input's chunks (supports_native_sliding_window, "
+        "supports_native_moving_window) calls the same predicate on its own input's chunks again when it is lowered - rewrites of one simplify pass share a dependents map "
+        "taken at the start of the pass, so a node created in that pass is invisible to the grid contract until the next one",
+        min_instances=2,
+    )
+    from ..cfg import CFG, stmt_of
+    from ..dataflow import Defs
+    from ..refguards import _inline
+
+    repo = ctx.repo
+    expr_cls = {c.fq: c for c in repo.expr_classes() if c.module.is_unit}
+    found = {}
+    for f in repo.all_functions():
+        if "/tests/" in f.module.relpath or f.parent is not None:
+            continue
+        cfg = None
+        for n in body_walk(f.node):
+            if not (isinstance(n, ast.Call) and isinstance(n.func, (ast.Name, ast.Attribute)) and n.args and not isinstance(n.args[0], ast.Starred)):
+                continue
+            r = repo.resolve_expr(n.func, f.module, f)
+            if not (r and r[0] == "class" and r[1].fq in expr_cls):
+                continue
+            if cfg is None:
+                cfg, defs = CFG(f.node), Defs(f.node)
+            st = stmt_of(cfg, n)
+            if st is None:
+                continue
+            texts = {unparse(n.args[0]), unparse(_inline(n.args[0], defs, module=f.module))}
+            from ..refguards import _conjuncts, _nnf
+
+            for t, pol in cfg.guards(st):
+                for m in _conjuncts(_nnf(_inline(t, defs, module=f.module), pol)):
+                    # a positive literal that IS a predicate call on the input's chunks: P(<input>.chunks[...], ...)
+                    if isinstance(m, ast.Call) and isinstance(m.func, ast.Name) and m.args and any((tx + ".chunks") in unparse(m.args[0]) for tx in texts):
+                        pr = repo.resolve_name(m.func.id, f.module, f)
+                        if pr and pr[0] == "func" and pr[1].module.is_unit:
+                            found.setdefault(r[1].fq, set()).add(pr[1].name)
+    for fq, preds in sorted(found.items()):
+        c = expr_cls[fq]
+        for pred in sorted(preds):
+            cst = f"{c.construct}::precondition {pred}"
+            rechecks = []
+            for mname in ("_lower", "_layer", "lower_once"):
+                g = c.methods.get(mname)
+                if g is None:
+                    continue
+                gdefs = Defs(g.node)
+                for m in full_walk(g.node):
+                    if isinstance(m, ast.Call) and isinstance(m.func, ast.Name) and m.func.id == pred and m.args:
+                        a0 = unparse(_inline(m.args[0], gdefs, module=g.module))
+                        if "self." in a0 and ".chunks" in a0:
+                            rechecks.append(mname)
+            rr.inst(cst, rechecked_in=sorted(set(rechecks)))
+            if not rechecks:
+                ctx.finding(
+                    rr, cst,
+                    f"{c.name} is chosen when {pred}(<input>.chunks, ...) holds but never asks again: the predicate is the validity condition of its kernel (the banded decomposition double-counts a block "
+                    f"longer than the window), and the input's grid can change between the choice and the lowering - a rolling sum of a row of tensordot(s, s) with s itself a rolling sum was silently wrong",
+                    file=c.module.path, line=c.node.lineno,
+                )
+    return rr
+
+
+RULES = [r03_1, r03_2, r03_3, r03_4, r03_5, r03_6, r03_7, r03_8, r03_9, r03_10, r03_11, r03_12, r03_13, r03_14]
 
 LEVEL_TEXT = (
     "Static decision of the layout-barrier clause of C03 ('even when optimization internally chose a different block "
